@@ -317,8 +317,22 @@ def impl(case):
     if fn == "labels":
         lab = np.array(case["lab"], int).reshape(case["h"], case["w"])
         keep = lab.copy()
-        out = M.skeletonize_labels(lab)
-        return {"out": np.asarray(out).astype(int).tolist(), "input_unchanged": bool((lab == keep).all())}
+        calls = []
+        orig = M.skeletonize_loop
+
+        def spy(result, i, j, order, table):
+            c = {"mask": _g(np.asarray(result) != 0), "order": [[int(i[k]), int(j[k])] for k in order]}
+            r = orig(result, i, j, order, table)
+            c["res"] = _g(np.asarray(result) != 0)
+            calls.append(c)
+            return r
+        M.skeletonize_loop = spy
+        try:
+            out = M.skeletonize_labels(lab)
+        finally:
+            M.skeletonize_loop = orig
+        return {"out": np.asarray(out).astype(int).tolist(), "input_unchanged": bool((lab == keep).all()),
+                "calls": calls}
     a = _arr(case)
     a0 = a.copy()
     if fn == "thin":
@@ -397,6 +411,11 @@ def model(ctx, cases, outs):
     for k, (c, o) in enumerate(zip(cases, outs)):
         fn = c["fn"]
         if fn == "labels":
+            # one skeletonize_loop call per colour: mask and processing order as the code built them
+            if not _bad(o):
+                for n, call in enumerate(o.get("calls", [])):
+                    groups.setdefault("entry_loop", []).append(((k, n), [c["h"], c["w"], call["mask"], call["order"]]))
+                res[k] = [None] * len(o.get("calls", []))
             continue
         base = [c["h"], c["w"], c["img"]]
         if fn == "thin":
@@ -414,7 +433,10 @@ def model(ctx, cases, outs):
                 groups.setdefault("entry_loop", []).append((k, base + [o["order"]]))
     for entry, items in groups.items():
         for (k, _), r in zip(items, _prun(ctx, entry, [a for _, a in items])):
-            res[k] = r
+            if isinstance(k, tuple):
+                res[k[0]][k[1]] = r
+            else:
+                res[k] = r
     # the processing order the model derives from the ordering matrix
     so = [(k, [c["h"], c["w"], c["img"], c["ord"]]) for k, c in enumerate(cases) if c["fn"] == "skel_ord"]
     if so:
@@ -425,10 +447,27 @@ def model(ctx, cases, outs):
 
 def compare(case, out, m):
     fn = case["fn"]
-    if fn == "labels":
-        return None
     if _bad(out):
         return "implementation raised/crashed: %s" % (str(out)[:300],)
+    if fn == "labels":
+        # every per-colour skeletonize_loop call equals the model; the result is their union, relabelled
+        lab = np.array(case["lab"], int).reshape(case["h"], case["w"])
+        exp = np.zeros(lab.shape, int)
+        seen = np.zeros(lab.shape, bool)
+        for call, mm in zip(out["calls"], m or []):
+            if mm != [call["res"]]:
+                return "skeletonize_labels: a per-colour skeletonize_loop call differs from the model"
+            mask = np.array(call["mask"], bool).reshape(lab.shape)
+            if (mask & seen).any() or (mask & (lab == 0)).any():
+                return "skeletonize_labels: colour masks overlap or cover unlabelled pixels"
+            seen |= mask
+            r = np.array(call["res"], bool).reshape(lab.shape)
+            exp[r] = lab[r]
+        if lab.max(initial=0) > 0 and not (seen == (lab > 0)).all():
+            return "skeletonize_labels: the colour masks do not cover the labelled pixels"
+        if exp.tolist() != out["out"] and lab.max(initial=0) > 0:
+            return "skeletonize_labels output is not the relabelled union of the per-colour skeletons"
+        return None
     if fn == "skel_ord":
         if m["order"] != out["order"]:
             return "processing order differs: impl %s model %s" % (str(out["order"])[:120], str(m["order"])[:120])
